@@ -50,8 +50,11 @@ func (c *Choices) Draw(n int) int {
 	return v
 }
 
-// Bool draws true with probability num/den.
-func (c *Choices) Bool(num, den int) bool { return c.Draw(den) < num }
+// Bool draws true with probability num/den; a zero draw is false so that shrinking switches features off.
+func (c *Choices) Bool(num, den int) bool { return c.Draw(den) >= den-num }
+
+// Pct draws true with probability p percent (zero draw = false).
+func (c *Choices) Pct(p int) bool { return c.Draw(100) >= 100-p }
 
 // Pick draws an index into a slice of length n.
 func (c *Choices) Pick(n int) int { return c.Draw(n) }
